@@ -12,6 +12,7 @@ CONSTANTS
   MaxClient = 2
   MaxCrash = 1
   MaxHalf = 0
+  MaxCfg = 0
   MaxRead = 0
   MaxSnap = 1
   SnapSize = 1
